@@ -16,7 +16,7 @@ structure ForestP (s : State) (P : List Nat) : Prop where
   nodup : ∀ o, (tdepsL s o).Nodup
   acyclic : ∀ k, ¬ TPath s.transferred k k
 
-theorem Forest.toP {s : State} (h : Forest s) (P : List Nat) : ForestP s P :=
+theorem _root_.SalsaVerif.Model.SyncDG.Forest.toP {s : State} (h : Forest s) (P : List Nat) : ForestP s P :=
   ⟨fun k t o hk => Or.inl (h.fwd k t o hk), h.bwd, h.nodup, h.acyclic⟩
 
 theorem ForestP.toForest {s : State} (h : ForestP s []) : Forest s :=
@@ -31,7 +31,7 @@ theorem ForestP.congr {s s' : State} {P : List Nat} (ht : s'.transferred = s.tra
   · intro o; rw [hl]; exact h.nodup o
   · rw [ht]; exact h.acyclic
 
-theorem Forest.congr {s s' : State} (ht : s'.transferred = s.transferred)
+theorem _root_.SalsaVerif.Model.SyncDG.Forest.congr {s s' : State} (ht : s'.transferred = s.transferred)
     (hd : s'.tdeps = s.tdeps) (h : Forest s) : Forest s' :=
   ((h.toP []).congr ht hd).toForest
 
